@@ -1,5 +1,6 @@
 import CircusProofs.Core.ConvReap
 import CircusProofs.Core.ConvSurplus
+import CircusProofs.Core.ConvMulti
 import CircusProofs.Props.C01Conv
 /-!
 # C01 — convergence, generalised
@@ -49,6 +50,26 @@ as they like).  `manage_processes` sorts the `Process` objects by start time, ne
 Workers that *ignore* the stop signal make the check park on 100 ms timers (one `kill_process` coroutine each, then
 SIGKILL after `⌈graceful/100 ms⌉` polls): the machinery for that polling phase is Core/StopRunG.lean (`stop`, `rm`,
 `quit`), stated for the `kill_processes` of a whole watcher; it is not instantiated for the surplus branch here.
+
+## C. several watchers
+
+Setting (`IdleK s`, `DatK s`): any number (≥ 1) of watcher objects with pairwise different identities, all registered
+(`a.watchers` = their uids in list order); each one active, respawning, no hooks, no `max_age`, not on-demand,
+`numprocesses ≥ 0`, `max_retry ≠ 0`, with its own `warmup_delay`, priority, name …; each lists at most `numprocesses`
+pids, all running; still kernel; nothing in flight.  `manage_watchers` runs the `manage_processes` of all of them, in
+`iter_watchers()` order (stable sort by priority, descending), under one `gen.multi`: every watcher that misses workers
+spawns its first missing one and parks its own `spawn_processes` loop on its own timer; `wake` fires the earliest
+timer (deadline, then id) — whichever watcher it belongs to; a loop that is done returns through `manage_processes` into
+the `gen.multi`; the last result completes the `gen.multi`, `manage_watchers` and the future of the check.
+The frames of the parked loops are described up to their order (`ParkedK`: a permutation of the canonical list), since
+every firing moves the frame of the loop it resumes to the end.
+
+* `C01_multi_check_parks` — the check with several watchers, some missing workers: one spawn per such watcher;
+* `C01_multi_wake` — any firing while the check is parked: one firing less to go (`toGo` = workers missing + loops parked);
+* **`C01_multi_converges`** — `check` + exactly `Σ_w (numprocesses_w − m_w)` firings end idle, every watcher with exactly its
+  `numprocesses` running workers, the workers that were there kept in place (`Grow`); for one watcher this is
+  `C01_converges_after_check` again;
+* `C01_multi_converged_stays` — further checks change neither the watchers nor the log.
 -/
 namespace Circus.Core
 
@@ -286,5 +307,124 @@ example : (run c01sS [.check]).ws.map (·.pids) = [[102]] ∧
     (run c01sS [.check]).frames.length = 0 ∧ (run c01sS [.check]).sleepers.length = 0 ∧ (run c01sS [.check]).a.slot = none ∧
     (run c01sS [.check, .check]).log.length = (run c01sS [.check]).log.length := by
   decide +kernel
+
+/-! ## C. several watchers -/
+
+/-- **the check with several watchers spawns the first missing worker of each and parks**: from an idle state with
+    registered active watchers (`DatK`), none above its `numprocesses` and at least one below, the `check` step reaps
+    nothing, and every watcher that misses workers gets exactly one new worker and a parked `spawn_processes` loop with
+    its own timer (`ParkedK`, `Acct`: the loop of a watcher remembers how many workers that watcher still misses; the
+    watchers without a parked loop are complete); the slot stays taken; as many timer firings remain (`toGo`) as workers
+    were missing before the check; no listed worker is lost (`Grow`). -/
+theorem C01_multi_check_parks (s : State) (hi : IdleK s) (hd : DatK s) (hle : ∀ w ∈ s.ws, w.pids.length ≤ w.np.toNat)
+    (hmiss : ∃ w ∈ s.ws, w.pids.length < w.np.toNat) :
+    ∃ results P, ParkedK s.ws.length s.nextId results P (step s .check) ∧ DatK (step s .check) ∧
+      Acct [] P (step s .check) ∧ P ≠ [] ∧ toGo P (step s .check) = (s.ws.map missing).sum ∧ Grow s.ws (step s .check).ws :=
+  check_parks_K s hi hd hle hmiss
+
+/-- **any timer firing while the check is parked, whichever watcher's timer is the earliest**: either that watcher
+    gets one more worker and its loop parks again on a fresh timer, or — no worker of it missing any more — its loop and
+    its `manage_processes` end and the result goes to the `gen.multi`; when that was the last parked loop the check
+    completes and the state is idle.  In every case exactly one firing less remains, the data invariant holds and no
+    listed worker is lost. -/
+theorem C01_multi_wake (K i : Nat) (results : List (Nat × Val)) (P : List PK) (s : State)
+    (hP : ParkedK K i results P s) (hd : DatK s) (hA : Acct [] P s) (hne : P ≠ []) :
+    ∃ results' P', DatK (step s .wake) ∧ Acct [] P' (step s .wake) ∧ toGo P' (step s .wake) + 1 = toGo P s ∧
+      Grow s.ws (step s .wake).ws ∧ (P' ≠ [] → ParkedK K i results' P' (step s .wake)) ∧ (P' = [] → IdleK (step s .wake)) :=
+  wake_K K i results P s hP hd hA hne
+
+/-- **convergence with several watchers**: from an idle state with any number (≥ 1) of registered active watchers,
+    each listing at most `numprocesses` running workers, in a still kernel, the periodic check followed by exactly
+    `R = Σ_w (numprocesses_w − m_w)` timer firings — in whatever order the timers of the different watchers come due —
+    ends in an idle state (no frame, timer, future, ready callback; the slot free; the daemon not hung; the kernel
+    still) in which every watcher is still active and lists exactly its `numprocesses` pids, all running; every watcher
+    object is still there, in the same place, with the same options, and lists the pids it listed before followed by
+    the new ones. -/
+theorem C01_multi_converges (s : State) (hi : IdleK s) (hd : DatK s) (hle : ∀ w ∈ s.ws, w.pids.length ≤ w.np.toNat)
+    (hne : s.ws ≠ []) :
+    let s' := run s (.check :: List.replicate (s.ws.map missing).sum .wake)
+    s'.frames = [] ∧ s'.sleepers = [] ∧ s'.tops = [] ∧ s'.ready = [] ∧ s'.a.slot = none ∧ s'.blocked = false ∧ s'.k.Still ∧
+    (∀ w ∈ s'.ws, w.status = .active ∧ w.pids.length = w.np.toNat ∧ ∀ pid ∈ w.pids, ∃ p, s'.k.find pid = some p ∧ p.st = .run) ∧
+    Grow s.ws s'.ws ∧ (∀ w ∈ s.ws, ∃ extra, ({ w with pids := w.pids ++ extra } : Watcher) ∈ s'.ws) := by
+  intro s'
+  obtain ⟨h1, ⟨hb, hk, _, hall⟩, h3, h4⟩ := check_converges_K s hi hd hle hne
+  exact ⟨h1.frames, h1.sleepers, h1.tops, h1.ready, h1.slot, hb, hk,
+    fun w hw => ⟨(hall w hw).1.status, h3 w hw, (hall w hw).2⟩, h4, h4.mem⟩
+
+/-- the same as an invariant triple, for chaining -/
+theorem C01_multi_converges_idle (s : State) (hi : IdleK s) (hd : DatK s) (hle : ∀ w ∈ s.ws, w.pids.length ≤ w.np.toNat)
+    (hne : s.ws ≠ []) :
+    IdleK (run s (.check :: List.replicate (s.ws.map missing).sum .wake)) ∧
+    DatK (run s (.check :: List.replicate (s.ws.map missing).sum .wake)) ∧
+    (∀ w ∈ (run s (.check :: List.replicate (s.ws.map missing).sum .wake)).ws, w.pids.length = w.np.toNat) ∧
+    Grow s.ws (run s (.check :: List.replicate (s.ws.map missing).sum .wake)).ws :=
+  check_converges_K s hi hd hle hne
+
+/-- **converged stays converged, several watchers**: with every watcher at its `numprocesses` running workers, any
+    number of further periodic checks leaves every watcher record exactly as it is, nothing in flight, and writes
+    nothing into the log. -/
+theorem C01_multi_converged_stays (n : Nat) (s : State) (hi : IdleK s) (hd : DatK s)
+    (hfull : ∀ w ∈ s.ws, w.pids.length = w.np.toNat) (hne : s.ws ≠ []) :
+    IdleK (run s (List.replicate n .check)) ∧ DatK (run s (List.replicate n .check)) ∧
+    (run s (List.replicate n .check)).ws = s.ws ∧ (run s (List.replicate n .check)).log = s.log :=
+  checks_stay_K n s hi hd hfull hne
+
+/-! ### non-vacuity: four watchers — priorities 0 / 5 / 0 / 5, targets 2 / 1 / 0 / 3, different warm-up delays; two worker
+    behaviours (one forks a child and takes 20 ms to spawn, one takes 5 ms) -/
+
+def c01CfgM : List Watcher := [{ name := "a", np := 2, status := .active, warmup := 700 },
+  { name := "b", np := 1, status := .active, warmup := 100, priority := 5 },
+  { name := "c", np := 0, status := .active },
+  { name := "d", np := 3, status := .active, warmup := 300, priority := 5 }]
+def c01sM : State := initState c01CfgM [{ spawnMs := 20, kids := 1 }, { spawnMs := 5 }] 0
+
+theorem c01sM_idle : IdleK c01sM := ⟨rfl, rfl, rfl, rfl, rfl, rfl, rfl, rfl, by decide +kernel⟩
+
+theorem c01sM_still : c01sM.k.Still := by
+  have hnil : c01sM.k.procs = [] := rfl
+  refine ⟨rfl, rfl, ?_, ?_, ?_, ?_⟩
+  · intro p hp; rw [hnil] at hp; cases hp
+  rotate_left
+  · intro p hp; rw [hnil] at hp; cases hp
+  · intro p hp; rw [hnil] at hp; cases hp
+  intro b hb
+  have : c01sM.k.behavs = [{ spawnMs := 20, kids := 1 }, { spawnMs := 5 }] := rfl
+  rw [this] at hb
+  simp only [List.mem_cons, List.mem_nil_iff, or_false] at hb
+  rcases hb with rfl | rfl <;> rfl
+
+theorem c01sM_datK : DatK c01sM := by
+  refine ⟨rfl, c01sM_still, by decide +kernel, ?_⟩
+  intro w hw
+  have hws : c01sM.ws = [{ name := "a", np := 2, status := .active, warmup := 700, uid := 1 },
+    { name := "b", np := 1, status := .active, warmup := 100, priority := 5, uid := 2 },
+    { name := "c", np := 0, status := .active, uid := 3 },
+    { name := "d", np := 3, status := .active, warmup := 300, priority := 5, uid := 4 }] := rfl
+  rw [hws] at hw
+  simp only [List.mem_cons, List.mem_nil_iff, or_false] at hw
+  rcases hw with rfl | rfl | rfl | rfl <;>
+    exact ⟨⟨rfl, rfl, rfl, rfl, rfl, by decide, by decide⟩, fun pid hp => by cases hp⟩
+
+theorem c01sM_le : ∀ w ∈ c01sM.ws, w.pids.length ≤ w.np.toNat := by decide +kernel
+
+example : (c01sM.ws.map missing).sum = 6 := by decide +kernel
+
+example : ∀ w ∈ (run c01sM (.check :: List.replicate 6 .wake)).ws, w.pids.length = w.np.toNat := by
+  have h := C01_multi_converges c01sM c01sM_idle c01sM_datK c01sM_le (by decide +kernel)
+  have e : (c01sM.ws.map missing).sum = 6 := by decide +kernel
+  rw [e] at h
+  exact fun w hw => ((h.2.2.2.2.2.2.2.1) w hw).2.1
+
+-- the same run evaluated: the check spawns one worker for each of b, d, a (priority order: b and d before a; c is complete);
+-- the six firings go to whichever loop is due; still parked after five, idle after six
+example : (run c01sM [.check]).ws.map (·.pids) = [[103], [100], [], [102]] ∧
+    (run c01sM [.check]).sleepers.length = 3 ∧
+    (run c01sM (.check :: List.replicate 5 .wake)).a.slot = some "manage_watchers" ∧
+    (run c01sM (.check :: List.replicate 5 .wake)).sleepers.length = 1 ∧
+    (run c01sM (.check :: List.replicate 6 .wake)).ws.map (fun w => (w.pids, w.status)) =
+      [([103, 108], .active), ([100], .active), ([], .active), ([102, 105, 106], .active)] ∧
+    (run c01sM (.check :: List.replicate 6 .wake)).frames.length = 0 ∧
+    (run c01sM (.check :: List.replicate 6 .wake)).sleepers.length = 0 ∧
+    (run c01sM (.check :: List.replicate 6 .wake)).a.slot = none := by decide +kernel
 
 end Circus.Core
